@@ -24,7 +24,7 @@ pub fn gen(seed: u64, _idx: u64, tier: Tier) -> Scenario {
         let size = match r.weighted(&[1, 3, 4, 6, 4]) { 0 => 0, 1 => r.range(1, 5), 2 => r.range(6, 25), 3 => r.range(26, 120), _ => r.range(121, 400) } as u64;
         let count = *r.pick(&["", "1", "2", "3", "5", "10", "11", "50", "100", "1000", "100000"]);
         let pattern = *r.pick(PATTERNS);
-        let typ = if kind == "SCAN" && r.chance(1, 4) { *r.pick(&["string", "list", "set", "hash", "zset"]) } else { "" };
+        let typ = if kind == "SCAN" && r.chance(1, 4) { *r.pick(&["string", "list", "set", "hash", "zset", "STRING", "Hash", "ZSET"]) } else { "" }; // (type names are not case-sensitive)
         // churn between calls: none, additions only, deletions only, both; how often
         let churn = *r.pick(&["none", "add", "del", "both", "both"]);
         let churn_rate = *r.pick(&[1i64, 2, 4]);
@@ -78,7 +78,7 @@ fn iterate(s: &mut Seq, seed: u64, a: &[B]) {
     let mut ever: BTreeMap<String, u64> = stable.clone();
     ever.extend(volatile.clone());
     // ---- iterate
-    let matches = |nm: &str, t: u64| -> bool { (pattern.is_empty() || glob_match(pattern.as_bytes(), nm.as_bytes())) && (typ.is_empty() || kind != "SCAN" || type_name(t) == typ) };
+    let matches = |nm: &str, t: u64| -> bool { (pattern.is_empty() || glob_match(pattern.as_bytes(), nm.as_bytes())) && (typ.is_empty() || kind != "SCAN" || type_name(t) == typ.to_lowercase()) };
     let mut returned: BTreeSet<String> = BTreeSet::new();
     let mut cursor = b"0".to_vec();
     let mut calls = 0u64;
